@@ -626,14 +626,15 @@ def push_distribution(cases, results):
 # ============================================================================ sinktools (C14)
 
 SINK_COMBS = {"map": (1, 1), "filter": (1, 1), "filter_map": (1, 1), "flat_map": (1, 1),
-              "flatten": (1, None), "unzip": (2, 2), "lazy": (1, 1)}
+              "flatten": (1, None), "unzip": (2, 2), "lazy": (1, 1),
+              "for_each": (1, 1), "try_for_each": (1, 1), "send_iter": (1, 1)}
 _RES = {0: "RDone", 1: "RPend", 2: "RErr"}
 _SOUT = {"fin": "SFinished", "fail": "SFailed", "fuel": "SOutOfFuel", "panic": "SPanicked"}
 
 
 def s_ref_items(case, i):
     c = case["comb"]
-    if c == "lazy":
+    if c in ("lazy", "for_each", "try_for_each", "send_iter"):
         return [nth(it, 0) for it in case["items"]]
     return ref_items(case, i)
 
@@ -650,6 +651,10 @@ def c_scomb(case):
         return "(KFlatMap %s)" % c_gcode(case["g"])
     if c == "lazy":
         return "(KLazy %d%%nat %s)" % (case["init_pends"], g_bool(case["init_ok"]))
+    if c == "try_for_each":
+        return "(KTryForEach %s)" % c_pcode(case["q"])
+    if c in ("for_each", "send_iter"):
+        return {"for_each": "KForEach", "send_iter": "KSendIter"}[c]
     return {"flatten": "KFlatten", "unzip": "KUnzip"}[c]
 
 
@@ -814,8 +819,10 @@ def apply_sink_placement(case, placement, err=None):
 
 def gen_sink_base(rng, comb, ln):
     base = {"k": "sink", "comb": comb, "fuel": 400}
-    base.update(gen_params(rng, comb))
-    base["items"] = gen_items(rng, comb if comb != "lazy" else "map", ln, 1)
+    base.update(gen_params(rng, comb if comb not in ("for_each", "try_for_each", "send_iter") else "inspect"))
+    if comb == "try_for_each":
+        base["q"] = rng.choice([["false"], ["mod", 3, 1], ["lt", 2], ["mod", 5, 0], ["mod", 7, 3]])
+    base["items"] = gen_items(rng, comb if comb not in ("lazy", "for_each", "try_for_each", "send_iter") else "map", ln, 1)
     if comb == "lazy":
         base["init_pends"] = rng.below(4)
         base["init_ok"] = not rng.chance(1, 5)
